@@ -448,16 +448,45 @@ def rule_e(ctx: Context, R: Reporter, fi: FuncInfo):
                     f"the last index gains or loses copies", key="renormalisation-guard")
 
 
+def rule_f(ctx: Context, R: Reporter, syst: FuncInfo):
+    """C06.f  a resampling routine reads its weights, it does not write them: no in-place write (augmented assignment,
+    item store, out=, in-place method) reaches an array the caller passed in -- np.asarray / reshape / slicing return
+    the caller's own memory.  Otherwise the second draw from the same weight vector is a draw from something else."""
+    from ..fresh import inputs_untouched_rule
+
+    from ..util import cached_result_mutations
+
+    funcs = [syst] + [f for f in ctx.prog.functions.values() if f.cls is not None and f.cls.name == "Resampler" and f.name == "run"]
+    for f in funcs:
+        for (node, cf) in cached_result_mutations(ctx, f):
+            R.check("C06.f", "no cached (shared) array is modified in place by a resampling routine", False, f, node,
+                    msg=f"{f.short}: `{unparse(node)[:60]}` modifies in place the array returned by the cached helper {cf.short}: the change stays in the cache, so every later call with "
+                        f"the same arguments starts from positions / weights that already carry the earlier calls' offsets", key=f"caller-array-write:cached:{f.short}")
+    inputs_untouched_rule(ctx, R, "C06.f", funcs, "the caller's weight vector is overwritten (e.g. by its cumulative sums), so every later draw from the same array is no longer a draw "
+                          "from the weights", min_funcs=2)
+
+
+def rule_g(ctx: Context, R: Reporter):
+    """C06.g  the pool that the drawn indices address is the pool the weights were computed for: the resampling step keeps
+    no copy of the history between calls."""
+    from ..util import stateless_steps_rule
+
+    stateless_steps_rule(ctx, R, "C06.g", ("Resampler",), "the indices are valid for the weight vector but are applied to the rows of an earlier pool")
+
+
 def run(ctx: Context, R: Reporter):
+    R.guard(rule_g, ctx, R)
     fi = systematic_fn(ctx)
     R.guard(rule_a, ctx, R, fi)
     R.guard(rule_b, ctx, R, fi)
     R.guard(rule_c, ctx, R, fi)
     R.guard(rule_d, ctx, R, fi)
     R.guard(rule_e, ctx, R, fi)
+    R.guard(rule_f, ctx, R, fi)
 
 
 def variants():
+    from ..variants import chain, insert_before, insert_before_function  # noqa
     from ..variants import Variant, alpha_rename, replace_expr, replace_stmt, set_keyword
 
     tl = "tempest/tools.py"
@@ -475,6 +504,12 @@ def variants():
         Variant("d-schemes-swapped", "bad", replace_expr(rs, "Resampler.run", "self.resample == 'mult'", "self.resample != 'mult'"), ["C06.d"]),
         Variant("d-no-replace", "bad", set_keyword(rs, "Resampler.run", "np.random.choice", "replace", "False"), ["C06.d"]),
         Variant("d-population-short", "bad", replace_expr(rs, "Resampler.run", "np.arange(len(weights))", "np.arange(self.n_particles)"), ["C06.d"], quick=True),
+        Variant("f-cumsum-into-callers-weights", "bad", replace_stmt(tl, "systematic_resample", "j = 0", "cdf = np.asarray(weights, dtype=float)\nnp.cumsum(cdf, out=cdf)\nj = 0"), ["C06.f"], quick=True),
+        Variant("f-normalise-caller-weights-in-place", "bad", insert_before(rs, "Resampler.run", "self.state.set_current('u', u_resampled)", "weights /= np.sum(weights)"), ["C06.f"]),
+        Variant("f-cached-comb-shifted-in-place", "bad", chain(insert_before_function(tl, "systematic_resample", "from functools import lru_cache\n\n\n@lru_cache(maxsize=32)\ndef _comb_teeth(size):\n    return np.arange(size) / size\n"),
+                                                                  replace_stmt(tl, "systematic_resample", "positions = (np.random.random() + np.arange(size)) / size", "positions = _comb_teeth(size)\npositions += np.random.random() / size")), ["C06.f", "C06.c"]),
+        Variant("f-benign-cumsum-of-copy", "benign", replace_stmt(tl, "systematic_resample", "j = 0", "cdf = np.array(weights, dtype=float)\nnp.cumsum(cdf, out=cdf)\nj = 0"), quick=True),
+        Variant("g-resampler-pool-cached", "bad", replace_stmt(rs, "Resampler.run", "u = self.state.get_history('u', flat=True)", "if getattr(self, '_u_pool', None) is None or len(self._u_pool) < len(weights):\n    self._u_pool = self.state.get_history('u', flat=True)\nu = self._u_pool"), ["C06.g"]),
         Variant("benign-bound-form", "benign", replace_expr(tl, "systematic_resample", "j < len(weights) - 1", "j + 1 < len(weights)"), quick=True),
         Variant("benign-bound-local", "benign", replace_stmt(tl, "systematic_resample", "j = 0", "j = 0\nn_w = len(weights)")),
         Variant("benign-rename-j", "benign", alpha_rename(tl, "systematic_resample", "j", "k")),
